@@ -178,23 +178,8 @@ def truthy(b):
 
 
 # ---- uninterpreted transcendental functions shared by the DAG side and the RPN side ---------------
-_UF = {}
-
-
-def uf(name):
-    if name not in _UF:
-        _UF[name] = z3.Function('fn_' + name, z3.RealSort(), z3.RealSort())
-    return _UF[name]
-
-
-def _trans(name):
-    pyf = getattr(math, name)
-
-    def f(x):
-        if isinstance(x, Sym):
-            return Sym(uf(name)(real(x)))
-        return pyf(x)
-    return f
+uf = symx.uf
+_trans = symx.sym_uf
 
 
 class _ExprMath:
